@@ -20,7 +20,7 @@ META = {
         "quick": {"evaluations": 6000, "distinct_nontrivial": 1500, "tables": {"mode": 5000, "outcome/some-kept-some-discarded": 1200, "outcome/whole-charge-removed": 300, "outcome/everything-discarded": 100, "ladder": 400, "absorb": 1500, "nocutoff": 500, "feature/four-or-more-charges": 300, "feature/more-than-256-singular-values": 40}},
         "thorough": {"evaluations": 200000, "distinct_nontrivial": 40000, "tables": {"outcome/everything-discarded": 3000}},
     },
-    "wall": {"quick": 300, "thorough": 1500},
+    "wall": {"quick": 900, "thorough": 1500},
 }
 
 BAND = 1e-9
@@ -359,7 +359,8 @@ def case(ctx, rng, big=False):
 
 
 def run(ctx):
-    for _, rng in ctx.cases("matrices", ctx.budget(20000, 400000)):
-        ctx.run_case(case, ctx, rng)
+    # the small stream first: the large one may run into the wall-clock cap of the thorough tier
     for _, rng in ctx.cases("big-spectrum", ctx.budget(64, 1200)):
         ctx.run_case(case, ctx, rng, True)
+    for _, rng in ctx.cases("matrices", ctx.budget(20000, 400000)):
+        ctx.run_case(case, ctx, rng)
